@@ -789,6 +789,11 @@ class ScipyOptimizeDriver(Driver):
         if isinstance(lower, np.ndarray):
             lower = lower[idx]
 
+        if self.options['optimizer'] in _supports_new_style and _use_new_style:
+            # new-style constraints carry their own bounds: the value is not negated
+            # (_con_val_func), so neither is its gradient
+            return grad[grad_idx, :]
+
         if dbl or (lower <= -INF_BOUND):
             return -grad[grad_idx, :]
         else:
